@@ -717,6 +717,17 @@ RULES = {
                   "let mut res = Vec :: with_capacity ( __cap_hint ( ) ) ;"),
     "R3us": Rule("R3us", "digits.data.len().sqrt() (num_integer::Roots on usize: external crate) -> __usize_sqrt(digits.data.len())", "digits . data . len ( ) . sqrt ( )", "__usize_sqrt ( digits . data . len ( ) )"),
     "R3bb2": Rule("R3bb2", "big_base = &big_base * &big_base; -> big_base = Mul::mul(&big_base, &big_base);", "big_base = & big_base * & big_base ;", "big_base = Mul :: mul ( & big_base , & big_base ) ;"),
+    "R43": Rule("R43", "S.iter().fold(0, |acc, &d| BODY) -> { let mut acc = 0; index loop: acc = BODY for each element in order; acc }  (std: Iterator::fold)",
+                "$s . iter ( ) . fold ( 0 , | acc , & d | $$body )",
+                "{ let mut acc = 0 ; let mut i__ = 0 ; while i__ < $s . len ( ) { let d = $s [ i__ ] ; i__ += 1 ; acc = $$body ; } acc }"),
+    "R44": Rule("R44", "for chunk in S.chunks(N) { BODY } -> __assert(N != 0); index loop over consecutive sub-slices of length N, the last possibly shorter (std: `chunks` panics for N == 0)",
+                "for chunk in $s . chunks ( $n ) { $$body }",
+                "{ __assert ( $n != 0 ) ; let mut i__ = 0 ; while i__ < $s . len ( ) { let e__ = if $s . len ( ) - i__ < $n { $s . len ( ) } else { i__ + $n } ; let chunk = & $s [ i__ .. e__ ] ; i__ = e__ ; $$body } }"),
+    "R12o": Rule("R12o", "if V.last() != Some(&0) { -> if !__last_is_zero64(&V) {  (Option<&u64> comparison: not (non-empty and last == 0))",
+                 "if $v . last ( ) != Some ( & 0 ) {", "if ! __last_is_zero64 ( & $v ) {"),
+    "R12m3": Rule("R12m3", "let big_digits = { FLOAT }; let mut data = Vec::with_capacity(big_digits.to_usize().unwrap_or(0)); -> let mut data = Vec::with_capacity(__cap_hint());  (ABSTRACTION as R12m2)",
+                  "let big_digits = { $$x } ; let mut data = Vec :: with_capacity ( big_digits . to_usize ( ) . unwrap_or ( 0 ) ) ;",
+                  "let mut data = Vec :: with_capacity ( __cap_hint ( ) ) ;"),
     "R16v": Rule("R16v", "Ord::cmp(&bit, &trailing_zeros) -> __u64_cmp(bit, trailing_zeros)  (std: total order on u64)",
                  "Ord :: cmp ( & bit , & trailing_zeros )", "__u64_cmp ( bit , trailing_zeros )"),
     "R0p": Rule("R0p", "crate::big_digit::BITS -> big_digit::BITS  (path of the same constant inside the unit's module)",
